@@ -212,7 +212,7 @@ pub fn run(g: &mut Global) {
         "StandardDeviation and Bollinger half-widths are compared on the variance scale, as C01/C08/C13/C15 state explicitly (DESIGN.md section 7)".into(),
         "ratio outputs whose reference denominator is zero or whose condition number exceeds 1e6 are skipped (counted)".into(),
     ];
-    let depth = g.tier.pick(7usize, 9usize);
+    let depth = g.tier.pick(7usize, 10usize);
     let per = ipow(3, depth) * (depth as u64 + 1);
     g.exhaustive(
         "enum",
@@ -232,7 +232,7 @@ pub fn run(g: &mut Global) {
         },
         &check,
     );
-    g.random("random", g.tier.pick(50000, 300000), &strategy, &check);
+    g.random("random", g.tier.pick(50000, 3000000), &strategy, &check);
     if g.tier == Tier::Thorough {
         g.fuzz_stage("ops_pred", Some(4), 600_000, "random", &|b| crate::fuzzdec::decode_c17(b), &check);
     }
